@@ -249,7 +249,7 @@ def main():
     digests = {}
     budget = BUDGET[tier]
     deadline = t0 + budget
-    det_n = 3 if tier == 'quick' else 12  # seeds per profile whose digests are cross-checked
+    det_n = 6 if tier == 'quick' else 16  # seeds per profile whose digests are cross-checked
     ctx = multiprocessing.get_context('fork')
     unknown_examples = {}
     with ProcessPoolExecutor(max_workers=nworkers, mp_context=ctx) as pool:
